@@ -28,7 +28,9 @@ func buildClasses(c *common.Corpus) {
 		if f&common.FProbe != 0 {
 			classes.probe = append(classes.probe, id)
 		}
-		if f&common.FLong != 0 {
+		if f&common.FHuge != 0 {
+			// huge inputs are only used by the dedicated sweeps
+		} else if f&common.FLong != 0 {
 			classes.long = append(classes.long, id)
 		} else if len(c.In[i]) <= 64 {
 			classes.short = append(classes.short, id)
@@ -63,7 +65,7 @@ func genRun(c *common.Corpus, seed uint64, cold bool, syncHeavy bool) (*simrt.Ru
 	nonLong := func() int32 {
 		for k := 0; k < 8; k++ {
 			i := pick(r, classes.all, nil)
-			if c.Flags[i]&common.FLong == 0 {
+			if c.Flags[i]&(common.FLong|common.FHuge) == 0 {
 				return i
 			}
 		}
